@@ -305,44 +305,11 @@ func (p *Prog) indexEnsured(s indexSite, all []indexSite) string {
 	fn := s.fn
 	r := p.R
 	// (a) the segment is the receiver of a Segment method that is only ever called on rewrite
-	// products (whose index is written by the rewrite, R1 I6)
-	if recvNamed(fn) == r.Segment && len(fn.Params) > 0 {
-		if root := rootValue(segBaseOf(s.call.Call.Args[0])); root != nil {
-			isRecv := false
-			if al, ok := root.(*ssa.Alloc); ok {
-				for _, st := range allocStores(al) {
-					if st.Val == fn.Params[0] {
-						isRecv = true
-					}
-				}
-			}
-			if root == ssa.Value(fn.Params[0]) {
-				isRecv = true
-			}
-			if isRecv {
-				n, okAll := 0, true
-				for _, g := range p.Funcs {
-					if !srcFunc(g) {
-						continue
-					}
-					for _, b := range g.Blocks {
-						for _, ins := range b.Instrs {
-							c, ok := ins.(*ssa.Call)
-							if !ok || c.Common().StaticCallee() != fn {
-								continue
-							}
-							n++
-							f, base := loadedField(c.Call.Args[0])
-							if !(f != nil && f.Embedded() && namedOf(base.Type()) == r.RewriteSegment) {
-								okAll = false
-							}
-						}
-					}
-				}
-				if n > 0 && okAll {
-					return fmt.Sprintf("the receiver is a rewrite product at all %d call sites, and a rewrite writes its index before it returns", n)
-				}
-			}
+	// products (whose index is written by the rewrite, R1 I6), directly or through other methods
+	// called on their own receiver
+	if recvNamed(fn) == r.Segment && len(fn.Params) > 0 && p.isReceiverValue(fn, s.call.Call.Args[0]) {
+		if n, ok := p.onlyCalledOnRewriteProducts(fn, 0); ok {
+			return fmt.Sprintf("the receiver is a rewrite product at all %d call sites, and a rewrite writes its index before it returns", n)
 		}
 	}
 	// (b) an earlier operation on the same path whose ErrNotExist outcome branched away, or that creates the file
@@ -477,6 +444,8 @@ func ruleR13(p *Prog) []Ob {
 			m := nameFormatRE.FindStringSubmatch(lf)
 			mx := nameFormatRE.FindStringSubmatch(xf)
 			switch {
+			case lf == "":
+				ob.Status, ob.Msg = Undecided, "the construction of the log file name in segment.New is not recognised (expected fmt.Sprintf with a constant format)"
 			case m == nil:
 				ob.Status, ob.Msg = Violated, fmt.Sprintf("the log file name format %q is not a zero-padded decimal offset plus suffix: directory order is then not numeric order (Find relies on it and never sorts)", lf)
 			default:
@@ -607,6 +576,15 @@ func sprintfFormatIn(v ssa.Value, depth int) string {
 		return ""
 	}
 	v = canon(v)
+	if bo, ok := v.(*ssa.BinOp); ok && bo.Op == token.ADD {
+		// Sprintf(...) + "literal"
+		if suf, isS := constString(bo.Y); isS {
+			if f := sprintfFormatIn(bo.X, depth+1); f != "" {
+				return f + strings.ReplaceAll(suf, "%", "%%")
+			}
+		}
+		return ""
+	}
 	c, ok := v.(*ssa.Call)
 	if !ok {
 		return ""
@@ -940,6 +918,81 @@ func clauseFails(cc *ast.CaseClause, info *types.Info) bool {
 			if id, ok := call.Fun.(*ast.Ident); ok && id.Name == "panic" {
 				return true
 			}
+		}
+	}
+	return false
+}
+
+// isReceiverValue: the path operand v is a field of fn's receiver.
+func (p *Prog) isReceiverValue(fn *ssa.Function, v ssa.Value) bool {
+	root := rootValue(segBaseOf(v))
+	if root == nil || len(fn.Params) == 0 {
+		return false
+	}
+	if root == ssa.Value(fn.Params[0]) {
+		return true
+	}
+	if al, ok := root.(*ssa.Alloc); ok {
+		for _, st := range allocStores(al) {
+			if st.Val == fn.Params[0] {
+				return true
+			}
+		}
+	}
+	return false
+}
+
+// onlyCalledOnRewriteProducts: at every call site of the Segment method fn the receiver is the
+// embedded Segment of a RewriteSegment, or the caller's own receiver where the caller has the same property.
+func (p *Prog) onlyCalledOnRewriteProducts(fn *ssa.Function, depth int) (int, bool) {
+	if depth > 3 {
+		return 0, false
+	}
+	r := p.R
+	n := 0
+	for _, g := range p.Funcs {
+		if !srcFunc(g) {
+			continue
+		}
+		for _, b := range g.Blocks {
+			for _, ins := range b.Instrs {
+				c, ok := ins.(*ssa.Call)
+				if !ok || c.Common().StaticCallee() != fn {
+					continue
+				}
+				n++
+				recv := c.Call.Args[0]
+				f, base := loadedField(recv)
+				if f != nil && f.Embedded() && namedOf(base.Type()) == r.RewriteSegment {
+					continue
+				}
+				// the caller's own receiver
+				if recvNamed(g) == r.Segment && len(g.Params) > 0 {
+					own := recv == ssa.Value(g.Params[0])
+					if u, ok := recv.(*ssa.UnOp); ok && p.isReceiverAlloc(g, u.X) {
+						own = true
+					}
+					if own {
+						if _, ok2 := p.onlyCalledOnRewriteProducts(g, depth+1); ok2 {
+							continue
+						}
+					}
+				}
+				return n, false
+			}
+		}
+	}
+	return n, n > 0
+}
+
+func (p *Prog) isReceiverAlloc(fn *ssa.Function, addr ssa.Value) bool {
+	al, ok := addr.(*ssa.Alloc)
+	if !ok || len(fn.Params) == 0 {
+		return false
+	}
+	for _, st := range allocStores(al) {
+		if st.Val == fn.Params[0] {
+			return true
 		}
 	}
 	return false
